@@ -12,8 +12,21 @@ WORDS = ['ab', 'abc', 'AB', 'Abc', '12', '123', '2020-01-02', 'a1', 'A1B2', 'x_y
          '[x]', 'x{2}', 'a|b', 'a\\b', '²', 'x²', '10$', '10$ off', 'ǅx', 'AB-12', 'CD-345', 'ef-6']
 
 
+def gen_long(rng):
+    """more than MAX_GROUPS runs of character classes: rexpy falls back to ^.{m,n}$ (needs DOTALL for newlines)"""
+    unit = rng.choice(['a-', 'a1 ', 'x.', 'A b', 'é-'])
+    n = rng.choice([50, 51, 55])
+    s = unit * n
+    if rng.random() < 0.6:
+        k = rng.randrange(len(s))
+        s = s[:k] + rng.choice(['\n', '\r\n', '\x85', '\u2028']) + s[k:]
+    return s
+
+
 def gen_string(rng):
     r = rng.random()
+    if r < 0.03:
+        return gen_long(rng)
     if r < 0.45:
         return rng.choice(WORDS)
     if r < 0.75:
